@@ -1058,3 +1058,11 @@ CASES += [
             .iter()
             .skip(1)''', expect={'C09': 'lists every variable'}, control=False),
 ]
+CASES += [
+ # fourth mutation campaign (texts, line ends, swallowed errors, swapped arm bodies)
+ dict(id='mut-entry-display-names-swapped', kind='fire', file='src/truth_table.rs', old='            Self::False => "False",\n            Self::Any => "Any",', new='            Self::False => "Any",\n            Self::Any => "False",', expect={'C10': 'entry text'}, control=False),
+ dict(id='mut-result-column-texts-swapped', kind='fire', file=M, old='                BDD::True => "True",\n                BDD::False => "False",', new='                BDD::True => "False",\n                BDD::False => "True",', expect={'C10': 'result column'}, control=False),
+ dict(id='mut-edge-list-lines-run-together', kind='fire', file=G, old='writeln!(writer, "{},{}", edge.0, edge.1)?;', new='write!(writer, "{},{}", edge.0, edge.1)?;', expect={'C18': 'violation'}, control=False),
+ dict(id='mut-queens-write-outcome-dropped', kind='fire', file=Q, old='    writeln!(writer, "true")?;', new='    writeln!(writer, "true").ok();', expect={'C15': 'outcome of a write dropped'}, control=False),
+ dict(id='mut-clique-write-outcome-dropped', kind='fire', file=C, old='writeln!(writer, "-({} & {}) &", complement.0, complement.1)?;', new='writeln!(writer, "-({} & {}) &", complement.0, complement.1).ok();', expect={'C16': 'outcome of a write dropped'}, control=False),
+]
